@@ -19,10 +19,10 @@ CASES = [
     dict(name='import-helper-called-from-run', kind='mutant', rule='R1', key='Sandbox._import',
          edits=[dict(file=SB, old="        if inputs is not None:\n            self.set_input(inputs)\n        if before is not None:",
                      new="        if inputs is not None:\n            self.set_input(inputs)\n        if before == 'module':\n            self._import(code, 'student', filename, threaded)\n        if before is not None:")]),
-    dict(name='handler-captures-twice', kind='mutant', rule='R2', key='once',
+    dict(name='handler-captures-twice', kind='mutant', rule='R2', key=':captures',
          edits=[dict(file=SB, old="            self._capture_exception(user_exception, sys.exc_info(),\n                                    code, filename)\n",
                      new="            self._capture_exception(user_exception, sys.exc_info(),\n                                    code, filename)\n            self._capture_exception(user_exception, sys.exc_info(),\n                                    code, filename)\n")]),
-    dict(name='systemexit-handler-silent', kind='mutant', rule='R2', key='SystemExit:captures',
+    dict(name='systemexit-handler-silent', kind='mutant', rule='R2', key='raises SystemExit]:captures',
          edits=[dict(file=SB, old="            self._capture_exception(system_exit, sys.exc_info(),\n                                    code, filename)\n", new="            pass\n")]),
     dict(name='handler-reraises', kind='mutant', rule='R2', key='returns-normally',
          edits=[dict(file=SB, old="            self._capture_exception(user_exception, sys.exc_info(),\n                                    code, filename)\n",
